@@ -7,8 +7,8 @@
 # files the mutation under /verif/seeded/<id>-<mN>/ with meta.json.
 set -u
 id=$1; m=$2; demodir=$3; run=${4:-.}
-wt=/var/tmp/seed/$id
-sd=$wt/_seed/$m
+wt=${SEED_WT:-/var/tmp/seed/$id}
+sd=$wt/_seed/${SEED_SRCM:-$m}
 export GOFLAGS=-mod=mod GOPROXY=off PKG_CONFIG_PATH=/var/tmp/libflux-stub CGO_LDFLAGS=-L/var/tmp/libflux-stub
 cd $wt || exit 3
 git checkout -q -- . ; git clean -fdq -e _seed >/dev/null 2>&1
